@@ -10,11 +10,11 @@ from vlib import *
 import gen_actors as ga
 
 STATE_FIELDS = {
-    "C06": ["enabled", "trans", "init", "next_steps"],
+    "C06": ["enabled", "trans", "init", "next_steps", "canonical_choices"],
     "C07": ["trans", "init", "net_len", "iter_deliv", "iter_all", "canonical_net"],
     "C09": ["enabled", "trans", "crash_budget"],
     "C15": ["enabled", "trans", "init", "next_steps"],
-    "C04": ["canonical_net"],
+    "C04": ["canonical_net", "canonical_choices"],
 }
 SYS_FIELDS = {
     "C06": ["no_panic"],
